@@ -492,7 +492,7 @@ class Ctx:
                 clo = e[2][0][2][1]
                 dflt = self.interval(e[2][1])
                 if clo[0] == "agg" and str(clo[1]).startswith("closure ") and dflt is not None and self.u is not None:
-                    names = [k for k in self.u.bodies if mir.norm(k) == str(clo[1])[len("closure "):]]
+                    names = [k for k in self.u.bodies if mir.norm(k) == mir.norm(str(clo[1])[len("closure "):])]
                     if len(names) == 1:
                         ri = ret_interval(self.u, names[0])
                         if ri is not None:
@@ -653,7 +653,7 @@ class Ctx:
             return None
         if not (clo[0] == "agg" and str(clo[1]).startswith("closure ")):
             return None
-        name = [k for k in (self.u.bodies if self.u else {}) if mir.norm(k) == str(clo[1])[len("closure "):]]
+        name = [k for k in (self.u.bodies if self.u else {}) if mir.norm(k) == mir.norm(str(clo[1])[len("closure "):])]
         if len(name) != 1:
             return None
         cb = self.u.bodies[name[0]]
